@@ -241,14 +241,21 @@ theorem body_eq (s : Str) : replaceWild (escapeSpecial s) = s.flatMap emitChar :
       · subst hc; simp [replaceWild]
       · simp [replaceWild, hc]
 
+theorem ne_of_not_special (c d : Char) (h : isSpecial c = false) (hd : isSpecial d = true) : c ≠ d := by
+  intro e; subst e; rw [h] at hd; cases hd
+
+/-- a character that is not escaped is none of the regex metacharacters — whatever the order of the
+    escaped class in the source (each membership is evaluated on the re-extracted table) -/
 theorem not_special_ne (c : Char) (h : isSpecial c = false) :
     c ≠ '.' ∧ c ≠ '+' ∧ c ≠ '?' ∧ c ≠ '^' ∧ c ≠ '$' ∧ c ≠ '{' ∧ c ≠ '}' ∧ c ≠ '(' ∧ c ≠ ')' ∧ c ≠ '|' ∧
-      c ≠ '[' ∧ c ≠ ']' ∧ c ≠ '\\' := by
-  unfold isSpecial at h
-  simp only [cbSpecialCharList, List.contains_cons, List.contains_nil, Bool.or_false, Bool.or_eq_false_iff,
-    beq_eq_false_iff_ne, ne_eq] at h
-  obtain ⟨h1, h2, h3, h4, h5, h6, h7, h8, h9, h10, h11, h12, h13⟩ := h
-  exact ⟨h1, h2, h3, h4, h5, h6, h7, h8, h9, h10, h11, h12, h13⟩
+      c ≠ '[' ∧ c ≠ ']' ∧ c ≠ '\\' :=
+  ⟨ne_of_not_special c _ h (by decide +kernel), ne_of_not_special c _ h (by decide +kernel),
+   ne_of_not_special c _ h (by decide +kernel), ne_of_not_special c _ h (by decide +kernel),
+   ne_of_not_special c _ h (by decide +kernel), ne_of_not_special c _ h (by decide +kernel),
+   ne_of_not_special c _ h (by decide +kernel), ne_of_not_special c _ h (by decide +kernel),
+   ne_of_not_special c _ h (by decide +kernel), ne_of_not_special c _ h (by decide +kernel),
+   ne_of_not_special c _ h (by decide +kernel), ne_of_not_special c _ h (by decide +kernel),
+   ne_of_not_special c _ h (by decide +kernel)⟩
 
 theorem quiet_emit (st : RState) (c : Char) (hq : Quiet st) (hc : c.val < 128) :
     ∃ st', scan st (emitChar c) = some st' ∧ Quiet st' ∧ st'.atStart = false := by
